@@ -22,7 +22,7 @@ LibPart(s) == [pipe |-> s.pipe, pipe_fp |-> s.pipe_fp, data |-> s.data,
                sett |-> s.sett, res |-> s.res, hash |-> s.hash,
                scan |-> s.scan]
 
-IsMutate(e)   == e.op \in {"mutate_pl", "mutate_pi"}
+IsMutate(e)   == e.op \in {"mutate_pl", "mutate_pi", "mutate_attr"}
 PreRequest(e) == e.op = "apply" \/ (e.op = "fit" /\ e.haspre)
 Rejectable(e) == e.bad \/ e.fresh = "reject"
 Ok(e)         == e.out = "ok"
@@ -84,7 +84,10 @@ Clauses(pre, e, post) == [
            ELSE LibPart(post) = LibPart(pre),
   C06_OnlyPreChangesData |->
       (~PreRequest(e) /\ ~e.orphan /\ e.op # "extwrite")
-        => post.data = pre.data /\ post.pipe = pre.pipe,
+        => /\ post.data = pre.data
+           \* (the `preprocessing` attribute is a caller-editable default:
+           \* editing it in place changes what it shows, nothing else)
+           /\ (e.op = "mutate_attr" \/ post.pipe = pre.pipe),
   \* ---------------------------------------------------------------- C09
   C09_RateTotal      |-> (e.op = "rate") => Ok(e),
   C09_RatePseudo     |-> (e.op = "rate" /\ Ok(e) /\ e.pseudo)
@@ -110,7 +113,17 @@ Clauses(pre, e, post) == [
   C09_RateTotalPassive |-> (e.op = "rate_passive") => Ok(e),
   \* ---------------------------------------------------------------- C10
   C10_ArgsUnchanged  |-> e.argsame,
-  C10_MutateInvisible |-> IsMutate(e) => LibPart(post) = LibPart(pre),
+  C10_MutateInvisible |->
+      IsMutate(e) => IF e.op = "mutate_attr"
+                     THEN [LibPart(post) EXCEPT !.pipe = "-"]
+                          = [LibPart(pre) EXCEPT !.pipe = "-"]
+                     ELSE LibPart(post) = LibPart(pre),
+  \* a request made with a caller-owned (possibly edited) object has the
+  \* outcome of the same request made with a fresh equal value
+  C10_ObjLikeFresh   |-> (PreRequest(e) /\ e.via = "obj" /\ ~Rejectable(e)
+                          /\ Ok(e))
+                           => /\ post.data = e.fresh
+                              /\ post.pipe = e.p /\ post.pipe_fp = e.p,
   C10_GetInitFrame   |-> (e.op = "getinit" /\ e.key = "none")
                            => LibPart(post) = LibPart(pre)
  ]
